@@ -257,6 +257,20 @@ pub fn run(tier: Tier) -> i32 {
             }
         }
     }
+    // word lists with a repeated entry (a list is not a set: `FstDictionary::new` and
+    // `MutableDictionary::extend_words` take whatever the caller collected) — same dictionary
+    let n_sets = subsets.len();
+    for a in 0..nu {
+        subsets.push(vec![a, a]);
+        for b in a + 1..nu {
+            subsets.push(vec![a, a, b]);
+            subsets.push(vec![a, b, b]);
+            if tier == Tier::Thorough {
+                subsets.push(vec![b, a, a]);
+            }
+        }
+    }
+    report.set("word_lists_with_a_repeated_entry", (subsets.len() - n_sets) as u64);
     let ns = subsets.len() as u64;
     let res = par_chunks(ns, 64, ncpu(), |s, e| {
         let mut viols: Vec<Violation> = vec![];
@@ -273,7 +287,9 @@ pub fn run(tier: Tier) -> i32 {
             for (k, (w, _)) in words.iter().enumerate() {
                 by_lower.entry(lower(w)).or_default().push(k);
             }
-            let collision = by_lower.values().any(|v| v.len() > 1);
+            // the same entry listed twice is one word: a collision needs two different spellings
+            let distinct = |ks: &mut dyn Iterator<Item = usize>| ks.map(|k| &words[k].0).collect::<BTreeSet<_>>().len();
+            let collision = by_lower.values().any(|v| distinct(&mut v.iter().cloned()) > 1);
             let built = match catch(|| build(&words)) {
                 Ok(b) => b,
                 Err(p) => {
@@ -318,7 +334,7 @@ pub fn run(tier: Tier) -> i32 {
                         let mask = (bi - 2) as u32;
                         let in_b = |k: usize| mask & (1 << k) != 0;
                         let coll = by_lower.values().any(|v| {
-                            v.iter().filter(|k| in_b(**k)).count() > 1 || v.iter().filter(|k| !in_b(**k)).count() > 1
+                            distinct(&mut v.iter().cloned().filter(|k| in_b(*k))) > 1 || distinct(&mut v.iter().cloned().filter(|k| !in_b(*k))) > 1
                         });
                         let mut h: Vec<usize> = hits.iter().filter(|k| !in_b(**k)).cloned().collect();
                         h.extend(hits.iter().filter(|k| in_b(**k)).cloned());
